@@ -38,7 +38,9 @@ def arrayproxy_fields(proxy: ArrayProxy) -> Optional[set[str | int]]:
 
     elems = list(flatten_elems(proxy))
     if elems and all(isinstance(el, data.View) for el in elems):
-        return set.intersection(*[set(cast(data.View, el).shape().members.keys()) for el in elems])
+        fields = [assign_arg_fields(el) for el in elems]
+        if all(f is not None for f in fields):
+            return set.intersection(*cast(list[set[str | int]], fields))
 
 
 def assign_arg_fields(val: AssignArg) -> Optional[set[str | int]]:
